@@ -15,7 +15,9 @@ import (
 	"strconv"
 	"strings"
 	"sync"
+	"text/scanner"
 	"time"
+	"unicode"
 
 	"github.com/alecthomas/participle/v2"
 	"github.com/alecthomas/participle/v2/ebnf"
@@ -471,6 +473,66 @@ func concHistory(args []string) error {
 				fmt.Printf("%s\ta parser built from an option value an earlier Build had used gives %q on %q; a parser built from fresh options %q\n", status, got, in, want)
 			}
 		}
+	}
+	// what one caller does with the result of Rules() is invisible to the next caller and to the definition
+	{
+		mk := func() *lexer.StatefulDefinition {
+			return lexer.MustStateful(lexer.Rules{"Root": {{Name: "A", Pattern: `a`}, {Name: "B", Pattern: `b`}, {Name: "WS", Pattern: `\s+`}}})
+		}
+		show := func(r lexer.Rules) string {
+			var sb strings.Builder
+			for _, x := range r["Root"] {
+				fmt.Fprintf(&sb, "%s=%s ", x.Name, x.Pattern)
+			}
+			return sb.String()
+		}
+		def := mk()
+		fresh := show(mk().Rules())
+		r1 := def.Rules()
+		r1["Root"] = append(r1["Root"], lexer.Rule{Name: "X", Pattern: `x`})
+		r2 := def.Rules()
+		r2["Root"] = append(r2["Root"], lexer.Rule{Name: "Y", Pattern: `y`})
+		r2["Root"][0].Pattern = "edited"
+		got1 := show(r1)
+		got := show(def.Rules())
+		status := "ok"
+		if got != fresh || got1 != fresh+"X=x " {
+			status = "MISMATCH"
+		}
+		observe2("definition.Rules()", "two callers appended to / edited earlier results", fresh, got)
+		observe2("the first caller's copy of Rules()", "a second caller appended to its own copy", fresh+"X=x ", got1)
+		fmt.Printf("%s\tRules() after callers changed earlier results: %q (first caller's copy %q); on a fresh definition %q\n", status, got, got1, fresh)
+	}
+	// a text/scanner definition with its own identifier predicate leaves the default definition as it was
+	{
+		custom := lexer.NewTextScannerLexer(func(s *scanner.Scanner) {
+			s.IsIdentRune = func(ch rune, i int) bool { return ch == '-' || ch == '*' || unicode.IsLetter(ch) }
+		})
+		lexVia := func(def lexer.Definition, in string) string {
+			l, err := def.Lex("c.txt", strings.NewReader(in))
+			if err != nil {
+				return "lexiniterr " + err.Error()
+			}
+			ts, err := lexer.ConsumeAll(l)
+			if err != nil {
+				return "err " + err.Error()
+			}
+			var vals []string
+			for _, t := range ts {
+				vals = append(vals, t.Value)
+			}
+			return strings.Join(vals, "|")
+		}
+		want := lexVia(lexer.TextScannerLexer, "b* c-d")
+		status, got := "ok", want
+		for round := 0; round < 30 && status == "ok"; round++ {
+			lexVia(custom, "x-y z*")
+			if g := lexVia(lexer.TextScannerLexer, "b* c-d"); g != want {
+				status, got = "MISMATCH", g
+			}
+		}
+		observe2("TextScannerLexer.Lex b* c-d", "a NewTextScannerLexer definition with its own IsIdentRune lexed to the end", want, got)
+		fmt.Printf("%s\tthe default text/scanner definition gives %q after a definition with its own IsIdentRune was used; before %q\n", status, got, want)
 	}
 	// an error returned earlier keeps its text and position when the parser fails again elsewhere
 	{
